@@ -459,7 +459,8 @@ def d5_add_once(ctx):
                 # the set is a fresh, otherwise unused HashSet; the inserted key is the candidate itself
                 cap = strip_old(c[2][1][3][0]) if c[2][1][3] else None
                 dedup = is_call(cap, name_contains="HashSet") and cap[1].endswith("::new") and strip_old(ats[0][2][1]) in (("param", 2), ("deref", ("param", 2)))
-            elif len(ats) == 1 and is_call(ats[0], name_contains="HashSet") and ats[0][1].endswith("::contains") and cpa.equivalent(rt, cpa.bdd.NOT(cpa.atom(ats[0]))):
+            elif len(ats) == 1 and ((is_call(ats[0], name_contains="HashSet") and ats[0][1].endswith("::contains")) or
+                                    (is_call(ats[0], name_contains="HashMap") and ats[0][1].endswith("::contains_key"))) and cpa.equivalent(rt, cpa.bdd.NOT(cpa.atom(ats[0]))):
                 caps = [strip_old(v) for v in c[2][1][3]]
                 cl = [v for v in caps if is_call(v, name_contains="Iterator::collect")]
                 okc = len(cl) == 1
@@ -471,6 +472,8 @@ def d5_add_once(ctx):
                         mfa = ctx.fa(mc)
                         r = ctx.cfg(mc).returns
                         rv = strip_old(mfa.val_local(0, (r[0], len(mc.blocks[r[0]]["stmts"])))) if len(r) == 1 else None
+                        if rv is not None and rv[0] == "agg" and rv[1] == "tuple" and rv[3] and is_call(ats[0], name_contains="HashMap"):
+                            rv = strip_old(rv[3][0])  # a map keyed by the label: (label, _) pairs
                         okc = rv is not None and is_call(rv, name_contains="Clone>::clone") and strip_old(rv[2][0]) == ("field", ("param", 2), CONN, "label")
                     else:
                         okc = False
@@ -567,14 +570,14 @@ def d5_add_once(ctx):
 
 def calls_site_bb(cf):
     for (bb, t) in cf.calls():
-        if t["f"].get("path", "").endswith("::contains"):
+        if t["f"].get("path", "").endswith("::contains") or t["f"].get("path", "").endswith("::contains_key"):
             return bb
     return 0
 
 
 def calls_site_arg(cf):
     for (bb, t) in cf.calls():
-        if t["f"].get("path", "").endswith("::contains"):
+        if t["f"].get("path", "").endswith("::contains") or t["f"].get("path", "").endswith("::contains_key"):
             return t["args"][1]
     return None
 
